@@ -637,10 +637,11 @@ impl DefaultFunction {
                 let arg1 = args[0].unwrap_byte_string()?;
                 let arg2 = args[1].unwrap_integer()?;
 
-                let index: i128 = arg2.try_into().unwrap();
+                // Compare as arbitrary-precision integers: the index may not fit any machine integer.
+                if *arg2 >= 0.into() && *arg2 < arg1.len().into() {
+                    let index: usize = arg2.try_into().unwrap();
 
-                if 0 <= index && index < arg1.len() as i128 {
-                    let ret = arg1[index as usize];
+                    let ret = arg1[index];
 
                     let value = Value::integer(ret.into());
 
